@@ -390,8 +390,8 @@ const preludeSMT = `
 (declare-fun iabase (Int) Int)
 (declare-fun iaoff (Int) Int)
 (assert (forall ((x Int) (o Int)) (! (and (= (iabase (ia x o)) x) (= (iaoff (ia x o)) o) (not (= (ia x o) 0))) :pattern ((ia x o)))))
-(declare-fun sidx (Slice Int) Int)
-(assert (forall ((s Slice) (i Int)) (! (= (sidx s i) (+ (s_off s) i)) :pattern ((sidx s i)))))
+(declare-fun eidx (Int Int) Int)
+(assert (forall ((o Int) (i Int)) (! (= (eidx o i) (+ o i)) :pattern ((eidx o i)))))
 (define-fun nilif () Iface (mk_iface 0 0))
 (define-fun slice_ok ((s Slice)) Bool (and (<= 0 (s_arr s)) (<= 0 (s_off s)) (<= 0 (s_len s)) (<= (s_len s) (s_cap s)) (<= (s_cap s) 4611686018427387904) (<= (s_off s) 4611686018427387904) (=> (= (s_arr s) 0) (= (s_cap s) 0))))
 (assert (= (slen sempty) 0))
@@ -531,4 +531,9 @@ func (so *Sorts) constArray(arrSort string, elem Term) Term {
 		so.zarr[name] = fmt.Sprintf("(declare-const %s %s)\n(assert (forall ((k Int)) (! (= (select %s k) %s) :pattern ((select %s k)))))", name, arrSort, name, elem.S, name)
 	}
 	return Term{name, arrSort}
+}
+
+// eidx: position of index i of slice s inside its backing array, as a symbol over the slice offset
+func eidx(s, i Term) Term {
+	return app("Int", "eidx", app("Int", "s_off", s), i)
 }
